@@ -7,12 +7,14 @@ import re
 from vlib import core
 
 
-def ps_cfg(path, nc, lock, maxops, schedlen, mode, opfilter="all"):
+def ps_cfg(path, nc, lock, maxops, schedlen, mode, opfilter="all", defer=True):
     with open(path, "w") as f:
-        f.write('CONSTANTS NC = %d UseLock = %s MaxOps = %d SchedLen = %d OpFilter = "%s"\nSPECIFICATION Spec\n' %
-                (nc, "TRUE" if lock else "FALSE", maxops, schedlen, opfilter))
+        f.write('CONSTANTS NC = %d UseLock = %s MaxOps = %d SchedLen = %d OpFilter = "%s" DeferUnlock = %s\nSPECIFICATION Spec\n' %
+                (nc, "TRUE" if lock else "FALSE", maxops, schedlen, opfilter, "TRUE" if defer else "FALSE"))
         if mode == "locked":
-            f.write("INVARIANTS Atomic MutualExclusion\nVIEW View\n")
+            f.write("INVARIANTS Atomic MutualExclusion LockHeldByActive\nVIEW View\n")
+        elif mode == "leak":
+            f.write("INVARIANTS LockHeldByActive\nVIEW View\n")
         elif mode == "locked-emit":
             f.write("INVARIANTS Atomic MutualExclusion EmitSched\n")
         elif mode == "attack":
@@ -73,6 +75,12 @@ def run(ctx):
         ctx.add_tlc(r)
         if r.rc != 0:
             raise core.Infra("ParamServer with the lock violates %s (model bug)" % r.violated)
+    # ... and releasing the mutex only on the normal way out of Artifact leaves it held after a panicking producer
+    ps_cfg(os.path.join(d, "P.cfg"), 2, True, 2, 8, "leak", "panic", defer=False)
+    r = core.run_tlc(d, "ParamServer", "P.cfg", files=[(os.path.join(d, "P.cfg"), "P.cfg")], workers=4, timeout=900)
+    ctx.extra["design_unlock_without_defer_counterexample"] = (r.violated == "LockHeldByActive")
+    if r.violated != "LockHeldByActive":
+        raise core.Infra("ParamServer without the deferred unlock does not leak the mutex (got %s): model lost its teeth" % r.violated)
     # (2) attack schedules from the lock-free model + schedules of the locked model
     cases = []
     for nc, sl in ([(2, 7)] if quick else [(2, 8), (3, 7)]):
@@ -108,6 +116,20 @@ def run(ctx):
     vec = vec[:700 if quick else 5000]
     ctx.extra["slice_parameter_schedules"] = len(vec)
     cases += [{"progs": v["progs"], "sched": v["sched"], "mode": "directed", "seed": ctx.seed, "tag": "vec"} for v in vec]
+    # all behaviours over a producer that panics for one value of p1 (every later call must still be served)
+    ps_cfg(os.path.join(d, "Q.cfg"), 2, True, 2, 7, "locked-emit", "panic")
+    r = core.run_tlc(d, "ParamServer", "Q.cfg", files=[(os.path.join(d, "Q.cfg"), "Q.cfg")], workers=core.NCPU, timeout=1500)
+    ctx.add_tlc(r)
+    pan = {json.dumps(v, sort_keys=True): v for v in r.values if isinstance(v, dict) and "sched" in v}
+    pan = [pan[k] for k in sorted(pan)]
+    pan = [v for v in pan if any(o["op"] == "art" for p in v["progs"] for o in p) and
+           any(o["op"] == "upd" and o["v"] == 66 for p in v["progs"] for o in p)]
+    rnd.shuffle(pan)
+    pan = pan[:300 if quick else 3000]
+    ctx.extra["panicking_producer_schedules"] = len(pan)
+    if not pan:
+        raise core.Infra("no schedule with a panicking producer was generated")
+    cases += [{"progs": v["progs"], "sched": v["sched"], "mode": "directed", "seed": ctx.seed, "tag": "panic"} for v in pan]
     ctx.extra["directed_cases"] = len(cases)
     bad, _ = run_cases(ctx, vh, cases, "directed")
     report(ctx, cases, bad)
@@ -168,7 +190,9 @@ def report(ctx, cases, bad):
     for h, preds, lines in bad:
         c = cases[h]
         hang = any(l["k"] == "hang" for l in lines)
-        panic = any(l.get("res") == "PANIC" for l in lines)
+        # a panic is only a crash of polyform when the history holds no value that makes the harness processor panic
+        panic = any(l.get("res") == "PANIC" for l in lines) and not any(
+            l["k"] == "inv" and l["op"] == "upd" and l["p"] == 1 and l["v"] == 66 for l in lines)
         pred = "C13.Hang" if hang else ("C13.Crash" if panic else "C13.Linearizable")
         ops = sorted({l["op"] for l in lines if l["k"] == "inv"})
         sig = "%s/%s" % (pred, "+".join(ops))
